@@ -382,21 +382,32 @@ func (y *yieldCacher) Put(key []byte, value interface{}, size int) bool {
 }
 
 func (r *conc14Runner) stressUnit(seed int64, nw, nops int) {
-	inner, _ := lrucache.NewCache(1)
+	inner, _ := lrucache.NewCache(2)
 	cacher := &yieldCacher{Cacher: inner}
-	db := memorydb.New()
+	db := &rejectingDB{DB: memorydb.New()}
 	u, err := storageUnit.NewStorageUnit(cacher, db)
 	if err != nil {
 		panic(err)
 	}
 	keys := [][]byte{{1}, {2}, {3}}
+	var servedUnacknowledged int32
 	for round := 0; round < nops/2; round++ {
 		if !r.parallel("unit", nw, func(w int, rng *rand.Rand) {
 			for i := 0; i < 12; i++ {
 				k := keys[rng.Intn(len(keys))]
 				switch x := rng.Intn(10); {
-				case x < 4:
+				case x < 3:
 					_ = u.Put(k, []byte{byte(w), byte(i)})
+				case x < 4:
+					// a write the persister rejects (after taking its time): never acknowledged, hence never to be seen
+					_ = u.Put([]byte{0xff, byte(w)}, []byte{0xbd})
+				case x < 5:
+					if u.Has([]byte{0xff, byte(rng.Intn(nw))}) == nil {
+						atomic.StoreInt32(&servedUnacknowledged, 1)
+					}
+					if v, err := u.Get([]byte{0xff, byte(rng.Intn(nw))}); err == nil && len(v) > 0 {
+						atomic.StoreInt32(&servedUnacknowledged, 1)
+					}
 				case x < 8:
 					_, _ = u.Get(k)
 				case x < 9:
@@ -406,6 +417,10 @@ func (r *conc14Runner) stressUnit(seed int64, nw, nops int) {
 				}
 			}
 		}, seed+int64(round)) {
+			return
+		}
+		if atomic.LoadInt32(&servedUnacknowledged) == 1 {
+			r.add("C14", "unit-served-unacknowledged-write", fmt.Sprintf("unit seed=%d: Has/Get reported a key whose every Put was rejected by the persister (a rejected write was visible while in flight)", seed))
 			return
 		}
 		// quiescence: the cache must not hold anything the persister does not hold
@@ -419,6 +434,62 @@ func (r *conc14Runner) stressUnit(seed int64, nw, nops int) {
 				r.add("C14", "unit-incoherent-after-concurrency", fmt.Sprintf("unit seed=%d: cache serves %s=%s, persister holds %s (err=%v)", seed, hx(k), hx(v.([]byte)), hx(pv), err))
 				return
 			}
+		}
+	}
+}
+
+// rejectingDB: a memory persister that refuses every key starting with 0xff — after yielding, so that the refusal is in flight
+// for a while
+type rejectingDB struct{ *memorydb.DB }
+
+func (d *rejectingDB) Put(key, val []byte) error {
+	if len(key) > 0 && key[0] == 0xff {
+		for i := 0; i < 20; i++ {
+			runtime.Gosched()
+		}
+		time.Sleep(30 * time.Microsecond)
+		return fmt.Errorf("rejected by the persister")
+	}
+	return d.DB.Put(key, val)
+}
+
+// stressTimeRace: an Upsert of an expired, not yet swept key racing a Sweep over a large time cache (see the `sweeprace` step
+// of the timecache component): whichever is served first, the key is present afterwards
+func (r *conc14Runner) stressTimeRace(seed int64) {
+	tc := timecache.NewTimeCache(time.Hour)
+	rng := rand.New(rand.NewSource(seed))
+	nfill := 20000 + rng.Intn(30000)
+	fill := func() {
+		for i := 0; i < nfill; i++ {
+			_ = tc.AddWithSpan(fmt.Sprintf("\xfefill-%d", i), time.Nanosecond)
+		}
+	}
+	fill()
+	time.Sleep(20 * time.Microsecond)
+	t0 := time.Now()
+	tc.Sweep()
+	walk := time.Since(t0)
+	for tr := 0; tr < 8; tr++ {
+		_ = tc.AddWithSpan("k", time.Nanosecond)
+		fill()
+		time.Sleep(20 * time.Microsecond)
+		delay := walk * time.Duration(tr) / 8
+		ok := r.parallel("timecache-race", 2, func(w int, _ *rand.Rand) {
+			if w == 0 {
+				tc.Sweep()
+				return
+			}
+			for t1 := time.Now(); time.Since(t1) < delay; {
+				runtime.Gosched()
+			}
+			_ = tc.Upsert("k", time.Hour)
+		}, seed)
+		if !ok {
+			return
+		}
+		if !tc.Has("k") {
+			r.add("C14", "timecache-upsert-lost-to-sweep", fmt.Sprintf("timecache-race seed=%d: key upserted with a span of 1h while a sweep was running is absent once both have returned (trial %d)", seed, tr))
+			return
 		}
 	}
 }
@@ -743,6 +814,8 @@ func (r *conc14Runner) Exec(line string) string {
 		r.stressCacher("fifo", c, 16, seed, nw, nops)
 	case "timecache":
 		r.stressTime(seed, nw, nops)
+	case "timecache-race":
+		r.stressTimeRace(seed)
 	case "cmap":
 		r.stressCmap(seed, nw, nops)
 	}
@@ -754,7 +827,7 @@ func (conc14Comp) Gen(rng *rand.Rand, tier string) [][]string {
 	if tier == "thorough" {
 		rounds, nops = 12, 1500
 	}
-	targets := []string{"txpool", "txadds", "txremove-race", "immunity", "immunity-clear", "immunize-race", "lru", "sizelru", "fifo", "timecache", "cmap", "unit", "adapter"}
+	targets := []string{"txpool", "txadds", "txremove-race", "immunity", "immunity-clear", "immunize-race", "lru", "sizelru", "fifo", "timecache", "timecache-race", "cmap", "unit", "adapter"}
 	var hs [][]string
 	h := []string{"begin conc14"}
 	for round := 0; round < rounds; round++ {
